@@ -186,6 +186,8 @@ fn tokenize_core(
     let mut line = 1;
 
     while bytepos < datalen {
+        #[cfg(a2lfile_verif)]
+        crate::verif_hooks::tick();
         let startpos = bytepos;
 
         if filebytes[bytepos].is_ascii_whitespace() {
@@ -490,6 +492,8 @@ fn handle_a2ml(
         if tag == "A2ML" {
             let mut done = false;
             while !done && bytepos < datalen {
+                #[cfg(a2lfile_verif)]
+                crate::verif_hooks::tick();
                 // find the next occurrence of '/'
                 // this should be the start of one of "/*", "//", or "/end"
                 while bytepos < datalen && filebytes[bytepos] != b'/' {
